@@ -5,6 +5,7 @@ CONSTANTS
   VarLong = 4
   Padding = TRUE
   RelFpuOK = TRUE
+  SelfKinds = {"labs", "lvar", "lrel"}
   Labels = {"la", "lb", "lc"}
   MaxItems = 12
   Fills = {1, 2, 3, 4, 118}
